@@ -7,6 +7,7 @@ from __future__ import annotations
 import itertools
 import pickle
 import random
+from collections import Counter
 import time
 
 
@@ -226,6 +227,50 @@ def permanent_loss(direction):
             return [], {"retries_until_raise": sends}
         net.now += 900 * 1_000_000
     return [f"a message that is never acknowledged was retried {sends} times over 60 grace periods without the sender raising"], {"sends": sends}
+
+
+def late_duplicate(n_between):
+    """two senders, one receiver: the quiet sender's only message is delivered and its ack is lost; the chatty sender then gets n_between messages through
+    (each acknowledged normally); only then does the quiet sender's retry arrive.  However much traffic lies in between, the retry must not be handed to
+    the application a second time."""
+    from cascade.executor.msg import DatasetPurge
+    from cascade.low.core import DatasetId
+    net = Net()
+    comms = install(net)
+    FakePoller.hook = None
+    r = Endpoint(comms, "R")
+    quiet, chatty = Endpoint(comms, "Q"), Endpoint(comms, "C")
+    quiet.sender.add_host("r", "R")
+    chatty.sender.add_host("r", "R")
+
+    def move(drop_acks_to=()):
+        for dest, frames in net.wire:
+            if dest in drop_acks_to:
+                continue
+            net.inbox.setdefault(dest, []).append(frames)
+        net.wire.clear()
+    quiet.sender.send("r", DatasetPurge(DatasetId("quiet", "0")))
+    move()
+    r.step()
+    move(drop_acks_to=("Q",))          # the ack to the quiet sender is lost
+    for i in range(n_between):
+        chatty.sender.send("r", DatasetPurge(DatasetId("chatty", str(i))))
+        move()
+        r.step()
+        move(drop_acks_to=("Q",))
+        chatty.step()
+    net.now += 900 * 1_000_000         # past the resend grace: the quiet sender retries
+    quiet.step()
+    move()
+    r.step()
+    move()
+    quiet.step()
+    got = Counter(repr(m) for m in r.delivered)
+    bad = {k: v for k, v in got.items() if v != 1}
+    probs = []
+    if bad or len(r.delivered) != n_between + 1 or r.raised:
+        probs.append(f"{n_between + 1} messages sent by two senders, {len(r.delivered)} handed to the application; wrong multiplicity: {dict(list(bad.items())[:3])}; receiver raised: {r.raised!r}")
+    return probs, {"frames_between_first_delivery_and_retry": n_between}
 
 
 def frame_shapes():
@@ -462,6 +507,12 @@ def run(out, tier, seed):
         for p in probs:
             add("C06/sender-raises-after-bounded-retries", desc, p)
         samples.append({"permanent loss": desc})
+    for n_between in ((0, 1, 7, 300, 5000) if tier == "quick" else (0, 1, 7, 300, 5000, 70000)):
+        probs, desc = late_duplicate(n_between)
+        cases += 1
+        nontrivial += 1
+        for p in probs:
+            add("C06/late-duplicate-suppressed", desc, p)
     probs = owner_loops(seed)
     cases += 2
     for p in probs:
@@ -481,6 +532,6 @@ def run(out, tier, seed):
             add("C06/exactly-once-or-raise", desc, p)
         i += 1
     out.add_bounded("acknowledged messaging under loss/duplication/delay", "exhaustive frame shapes + seeded random adversary",
-                    f"all frame sequences of length 0..4 over {{Syn, message, payload header, raw}}; permanent loss; the real owner loops with every first transmission dropped; "
+                    f"all frame sequences of length 0..4 over {{Syn, message, payload header, raw}}; permanent loss; a retry arriving after 0..5000 (thorough: 70000) acknowledged frames of another sender; the real owner loops with every first transmission dropped; "
                     f"random adversary: 0..3 messages per direction, per-frame drop p in {{0,.2,.4}}, duplicate p in {{0,.2,.3}}, <= 6 faults, arbitrary interleaving of sends, "
                     f"deliveries, endpoint loop steps and clock ticks, for {budget}s; non-trivial = at least one fault injected", cases, nontrivial, time.time() - t0, samples, failures)
